@@ -134,6 +134,13 @@ def enumerate_configs(tier: str):
                    "frame_size": fs, "flow": "inferred", "flow_logical": None, "n": n, "collect": False, "empty_graphs": True}
     for n in ns:
         for arity in (3, 4):
+            # a sink filled by sink.parse(<file>) rather than by add(), written out again with guessed options
+            yield {"entry": "g_sink_reparsed_serialize", "integration": "generic", "physical": 0, "arity": arity, "logical": None,
+                   "delimited": True, "frame_size": 250, "flow": "inferred", "flow_logical": None, "n": n, "collect": False}
+            yield {"entry": "g_sink_reparsed_grouped", "integration": "generic", "physical": 0, "arity": arity, "logical": None,
+                   "delimited": True, "frame_size": 250, "flow": "inferred", "flow_logical": None, "n": n, "collect": False}
+    for n in ns:
+        for arity in (3, 4):
             yield {"entry": "g_sink_serialize", "integration": "generic", "physical": 0, "arity": arity, "logical": None,
                    "delimited": True, "frame_size": 250, "flow": "inferred", "flow_logical": None, "n": n, "collect": False}
 
@@ -167,7 +174,17 @@ def run_config(c: dict) -> dict:
         if c.get("empty_graphs") else None
     try:
         flow = build_flow(c)
-        if c["entry"] == "g_sink_serialize":
+        if c["entry"] in ("g_sink_reparsed_serialize", "g_sink_reparsed_grouped"):
+            from pyjelly.integrations.generic.generic_sink import GenericStatementSink
+            first = io.BytesIO()
+            pj.generic_sink_of(stmts).serialize(first)
+            sink = GenericStatementSink()
+            sink.parse(io.BytesIO(first.getvalue()))
+            if c["entry"] == "g_sink_reparsed_serialize":
+                sink.serialize(out)
+            else:
+                gser.grouped_stream_to_file((x for x in [sink]), out)
+        elif c["entry"] == "g_sink_serialize":
             pj.generic_sink_of(stmts).serialize(out)
         else:
             options = SerializerOptions(
